@@ -35,7 +35,7 @@ func runC01(opt *Options) int {
 	known := loadKnown()
 	violations := 0
 	knownHits := map[string]int{}
-	replayBase := filepath.Join("/verif/replays", "C01")
+	replayBase := filepath.Join(layera.Root(), "replays", "C01")
 	os.RemoveAll(replayBase)
 	gateChecked := 0
 	var gateSamples []interface{}
@@ -107,7 +107,7 @@ func runC01(opt *Options) int {
 	rc := la.finish(lares, gate)
 	// patch the evidence with the gate's violations
 	if violations > 0 {
-		evp := "/verif/evidence/C01.json"
+		evp := filepath.Join(layera.Root(), "evidence", "C01.json")
 		if b, err := os.ReadFile(evp); err == nil {
 			var ev map[string]interface{}
 			if json.Unmarshal(b, &ev) == nil {
